@@ -6,7 +6,7 @@
 #include <limits.h>
 #include <stdlib.h>
 
-static unsigned long counts[600];
+static unsigned long counts[6000];
 static int ncounts;
 
 static void
@@ -44,6 +44,16 @@ mkcounts (void)
   };
   for (unsigned i = 0; i < sizeof sp / sizeof *sp; i++)
     addc (sp[i]);
+  if (vh_thorough)
+    {
+      /* every count up to 1100 and around the sha-crypt default, and 2000 counter-derived 64-bit values */
+      for (unsigned long c = 41; c <= 1100 && ncounts < 5990; c++)
+        counts[ncounts++] = c;
+      for (unsigned long c = 4900; c <= 5100 && ncounts < 5990; c++)
+        counts[ncounts++] = c;
+      for (int t = 0; t < 2000 && ncounts < 5990; t++)
+        counts[ncounts++] = vh_hash (&t, sizeof t, 11) >> (t % 48);
+    }
 }
 
 static int
